@@ -74,10 +74,12 @@ def alt_types():
     return _ALT
 
 
-def install(model, seeds, with_stats=True, reuse_streams=False, long_lived_producers=False, two_types=False):
+def install(model, seeds, with_stats=True, reuse_streams=False, long_lived_producers=False, two_types=False,
+            default_info=False):
     """install the construct/action hooks on a ProgModel.  reuse_streams: the stream objects are created once per
     model and re-seeded with set_seed() for every replication (what a StreamSeedUpdater does in an experiment).
-    two_types: every statistic listens to TWO event types of its producer; observations alternate between them."""
+    two_types: every statistic listens to TWO event types of its producer; observations alternate between them.
+    default_info: stream 0 is the "default" stream of a StreamInformation() that the model creates (seed 10)."""
     model.seeds = list(seeds)
     model.stream_objects = None
     model.producer_objects = None
@@ -94,6 +96,10 @@ def install(model, seeds, with_stats=True, reuse_streams=False, long_lived_produ
             m.streams = m.stream_objects
         else:
             m.streams = [MersenneTwister(s) for s in m.seeds]
+        if default_info:
+            from pydsol.core.streams import StreamInformation
+            m.stream_info = StreamInformation()
+            m.streams = [m.stream_info.get_stream("default")] + list(m.streams[1:])
         m.draws = []
         m.reinit_log = []
         if with_stats:
